@@ -105,11 +105,18 @@ class SymEval:
             m = self.prog.modules.get(mod)
             if m is not None and name in m.assigns and len(m.assigns[name]) == 1:
                 val = m.assigns[name][0]
+                from . import alpha
+                if isinstance(val, ast.Constant) and alpha.is_new_module_name(mod, name) and q not in self.seed and m is self.func.module:
+                    return self.expr(val)  # a named literal introduced by a refactoring
                 if isinstance(val, ast.Constant):
                     key = q
                     if key in self.seed:
                         return S.lift(self.seed[key])
                     return S.sym(self.rename.get(q, q))
+                from . import alpha
+                if alpha.is_new_module_name(mod, name) and self.depth < 4 and m is self.func.module:
+                    # a module-level constant introduced by a refactoring: read through to its definition
+                    return self.expr(val)
             return S.sym(self.rename.get(q, q))
         return self._sym(n.id)
 
@@ -378,7 +385,7 @@ class SymEval:
                     return S.call("log", args[0], args[1])
                 return S.call(nm, *args[:1])
             target = self.prog.lookup(q)
-            if isinstance(target, FunctionInfo) and (target.qualname in self.inline or target.short in self.inline):
+            if isinstance(target, FunctionInfo) and (target.qualname in self.inline or target.short in self.inline or _new_helper(target)):
                 r = self._inline(target, args, kwargs, n)
                 if r is not None:
                     return r
@@ -396,14 +403,18 @@ class SymEval:
                 m = self.prog.find_method(self.cls, parts[0])
                 if m is not None and m.name not in self.no_inline and not m.is_abstract and (
                         m.qualname in self.inline or m.short in self.inline or (m.name in self.inline)
-                        or (self.inline_self and not m.is_property)):
-                    r = self._inline(m, [self.env[head]] + args, kwargs, n)
+                        or (self.inline_self and not m.is_property) or _new_helper(m)):
+                    r = self._inline(m, ([] if m.is_staticmethod else [self.env[head]]) + args, kwargs, n)
                     if r is not None:
                         return r
             recv = self.expr(f.value)
             allargs = list(args) + [S.call("kw:" + k, v) for k, v in sorted(kwargs.items())]
             return S.call("." + f.attr, recv, *allargs)
         fv = self.expr(f)
+        if fv.op == "sym" and "." in fv.args[0] and not kwargs:
+            # a bound method held in a variable / parameter: the same call as  receiver.method(...)
+            recv, _, meth = fv.args[0].rpartition(".")
+            return S.call("." + meth, S.sym(recv), *args)
         return S.call("apply", fv, *args)
 
     def _inline(self, target, args, kwargs, node):
@@ -528,7 +539,13 @@ class SymEval:
                 cur = self.expr(_load(st.target))
                 self.assign_target(st.target, self.binop(st.op, cur, self.expr(st.value)))
             else:
-                self.assign_target(st.target, S.unknown("aug"))
+                # x[a:b] op= v: the right-hand side is materialised before the in-place update (NumPy semantics)
+                try:
+                    cur = self.expr(_load(st.target))
+                    val = self.binop(st.op, cur, self.expr(st.value))
+                except Exception:
+                    val = S.unknown("aug")
+                self.assign_target(st.target, val)
             return
         cur = self.expr(_load(st.target))
         v = self.binop(st.op, cur, self.expr(st.value))
@@ -727,6 +744,31 @@ class SymEval:
 
     def s_For(self, st):
         it = self.expr(st.iter)
+        # comprehension written as a loop:  L = [] ; for t in IT: [if c:] L.append(e)   ->   L := comp(e, IT, c)
+        if len(st.body) == 1 and not st.orelse:
+            inner, conds = st.body[0], []
+            if isinstance(inner, ast.If) and not inner.orelse and len(inner.body) == 1:
+                conds, inner = [inner.test], inner.body[0]
+            if (isinstance(inner, ast.Expr) and isinstance(inner.value, ast.Call) and isinstance(inner.value.func, ast.Attribute)
+                    and inner.value.func.attr == "append" and isinstance(inner.value.func.value, ast.Name)
+                    and len(inner.value.args) == 1 and not inner.value.keywords):
+                L = inner.value.func.value.id
+                cur = self.env.get(L)
+                tn = list(target_names(st.target))
+                if cur is not None and cur.op == "call" and cur.args[0] == "list" and len(cur.args) == 1 and L not in tn:
+                    saved = dict(self.env)
+                    for nm in tn:
+                        self.env[nm] = S.sym("@" + nm)
+                    try:
+                        elt = self.expr(inner.value.args[0])
+                        cs = [self.expr(c) for c in conds]
+                    finally:
+                        self.env = saved
+                    if "@" + L not in S.symbols(elt) and L not in S.symbols(elt):
+                        self.env[L] = S.call("comp", elt, it, *cs)
+                        for nm in tn:
+                            self.env[nm] = S.unknown("after-loop:" + nm)
+                        return False
         # pipeline idiom:  for v in LIST: x = f(v, x)   ->   x := fold(LIST, template, x)
         if (len(st.body) == 1 and not st.orelse and isinstance(st.body[0], ast.Assign)
                 and len(st.body[0].targets) == 1 and isinstance(st.body[0].targets[0], ast.Name)
@@ -836,6 +878,12 @@ class SymEval:
         """path condition (conjunction of the branch tests taken) under which ``stmt`` is reached"""
         env, path = self.at(stmt)
         return S.eand(*path) if path else S.TRUE
+
+
+def _new_helper(fi):
+    """a private function / method that the reference tree does not have: a helper extracted by a refactoring is read through"""
+    from . import alpha
+    return fi.name.startswith("_") and not (fi.name.startswith("__") and fi.name.endswith("__")) and alpha.is_new_function(fi.qualname)
 
 
 def _is_literal(n):
